@@ -120,10 +120,13 @@ func (p c18) Run(c *core.Ctx) {
 			tag := fmt.Sprintf("w%x", choiceSeed&0xffffff)
 			prog.Nodes[0].Body = append(c18Prelude(tag), prog.Nodes[0].Body...)
 			scripts := hast.Render(prog, hast.L0())
+			// every runner of the process starts from the same first reader (a common boot script) followed by
+			// its own: what is shared is the TEXT, never the parsed nodes
+			scripts = append([]string{c18Boot}, scripts...)
 			if r.Chance(1, 5) {
 				// a script with a syntax error, created while the other goroutines create theirs: its error
 				// (text included) is its own, and nobody else's creation is affected by it
-				scripts[0] = breakSyntax(r, scripts[0])
+				scripts[1] = breakSyntax(r, scripts[1])
 				invalid++
 			}
 			// one runner in four is created without a seed (its trace cannot be compared, its creation and
@@ -290,6 +293,8 @@ func (p c18) Run(c *core.Ctx) {
 	}
 }
 
+const c18Boot = "title: Boot\n---\nbooting\n<<jump N1>>\n===\n"
+
 // breakSyntax plants one syntax error in a valid script.
 func breakSyntax(r *core.Rand, s string) string {
 	switch r.Intn(4) {
@@ -344,6 +349,8 @@ func c18Prelude(tag string) []*hast.Stmt {
 		{K: hast.SCommand, Name: "emote", Args: []hast.CmdArg{{X: hast.Call("dice", hast.Num("4"))}}},
 		{K: hast.SCall, X: hast.Call("cap", hast.Num("1"), hast.Call("pure", hast.Str("v")))},
 		{K: hast.SCommand, Name: "later", Args: []hast.CmdArg{{Word: tag}, {Word: tag}, {Word: tag}}},
+		// a command nobody registered: every runner gets its own "unknown command" error and goes on
+		{K: hast.SCommand, Name: "nosuchcommand", Args: []hast.CmdArg{{Word: tag}}},
 		line(hast.Lit("prelude done")),
 	}
 }
